@@ -72,7 +72,7 @@ PROPS = {
                   "input space sampled by mutation recipes; a stall inside uninstrumented code is detected by wall clock (60-90 s), not by the step counter", INGEST_RULE,
                   ["request-answered-5xx", "request-answered-2xx"], stall=True, design_ref="DESIGN.md §4 C05"),
 }
-PROPS["C05"]["known_probes"] = ["findings/C05-influx-stream-parser-spins.json"]
+PROPS["C05"]["known_probes"] = ["findings/C05-influx-stream-parser-spins.json", "findings/C05-gzip-body-inflated-without-bound.json"]
 PROPS_C15_PROBE = "findings/C15-in-process-log-query-over-3000-entries-splits-streams.json"
 PROPS["C05"]["stall_timeout"] = 60
 PROPS["C05"]["crash_is_violation"] = True
